@@ -677,6 +677,22 @@ func buildCorpus() []seed {
 		m.ExportFunc("bv", m.AddFunc(vt(i32), vt(i32), nil, a().Block(i32).I32Const(9).LocalGet(0).BrIf(0).Drop().I32Const(8).End().B))
 		add("typed-branch-targets", fMV|fSIMD, m)
 	}
+	{ // forward references: function 0 calls, tail-calls and takes a reference to LATER functions, the start
+		// section and an export name later functions too, so a deviation in a later function's entry of the
+		// function section is seen by code that is validated before that entry is
+		m := &wb.Module{}
+		m.Tables = []wb.Table{{Elem: fref, Lim: wb.Limits{Min: 1}}}
+		f0 := m.AddFunc(nil, vt(i32), nil, a().I32Const(0).RefFunc(3).TableSet(0).Call(1).Call(2).Op(0x6a).B)
+		_ = f0
+		m.AddFunc(nil, vt(i32), nil, a().I32Const(1).B)
+		m.AddFunc(nil, vt(i32), nil, a().I32Const(2).B)
+		f3 := m.AddFunc(nil, nil, nil, nil)
+		m.Elems = append(m.Elems, wb.Elem{Mode: 2, Funcs: []uint32{f3}})
+		m.Start = u32p(f3)
+		m.ExportFunc("a", 0)
+		m.ExportFunc("d", f3)
+		add("forward-references", fBR, m)
+	}
 	// ---- one tiny exported function per instruction of a family, so that removing the definition the
 	// family depends on (the memory, a table, the data count ...) confronts EVERY opcode's own existence
 	// check (drop-dependency pass). These seeds are large and only used by the light passes.
